@@ -72,9 +72,11 @@ func (r *BatchedPrivateTokenRequest) Unmarshal(data []byte) bool {
 	}
 
 	l, offset := quicwire.ConsumeVarint(data[3:])
-	s.Skip(offset)
-	blindedRequests := make([]byte, l)
-	if !s.ReadBytes(&blindedRequests, len(blindedRequests)) {
+	if offset < 0 || !s.Skip(offset) || l > uint64(len(s)) {
+		return false
+	}
+	var blindedRequests []byte
+	if !s.ReadBytes(&blindedRequests, int(l)) {
 		return false
 	}
 	if len(blindedRequests)%32 != 0 {
